@@ -20,7 +20,7 @@ from ..gen import grammar as gg
 
 PID = "C19"
 SHARDS = {"quick": 8, "thorough": 16}
-CFG = {"mode": "lax", "extra": True, "twice": True}
+CFG = {"mode": "lax", "extra": True, "twice": True, "flags": {"logical_not_operator": True, "logical_parentheses": True, "ternary_expressions": True}}
 
 POOL = ["a", "b", "x", "y", "n", "s"]
 DATA = {
@@ -156,6 +156,39 @@ def _freeze(x):
 # ---------------------------------------------------------------------------
 
 
+def bindings_of(node) -> tuple[set, bool, object]:
+    """(names the node binds for what it encloses, isolated?, partial name or None).
+
+    Derived from the node's own attributes for the common binding tags, so that the oracle does not
+    lean on the block_scope()/partial_scope() methods the analysis itself uses; those are the
+    fallback for other node types.
+    """
+    from liquid.ast import PartialScope
+
+    cls = type(node).__name__
+    if cls == "ForNode":
+        return {str(node.expression.identifier), "forloop"}, False, None
+    if cls == "TablerowNode":
+        return {str(node.expression.identifier), "tablerowloop"}, False, None
+    if cls == "WithNode":
+        return {str(a.name) for a in node.args}, False, None
+    if cls in ("IncludeNode", "RenderNode"):
+        names = {str(a.name) for a in (node.args or [])}
+        pname = getattr(node.name, "value", None)
+        if node.var is not None:
+            names.add(str(node.alias) if node.alias else str(pname).split(".", 1)[0])
+        return names, cls == "RenderNode", str(pname) if pname is not None else ""
+    names = set()
+    bs = oc.outcome_of(lambda: list(node.block_scope()))
+    if bs[0] == "ok":
+        names |= {str(i) for i in bs[1]}
+    ps = oc.outcome_of(node.partial_scope)
+    if ps[0] == "ok" and ps[1] is not None:
+        part = ps[1]
+        return names | {str(i) for i in part.in_scope}, part.scope == PartialScope.ISOLATED, str(part.name) if isinstance(part.name, str) else ""
+    return names, False, None
+
+
 ASSIGN_RE = re.compile(r"(?:assign|capture|increment|decrement)\s+([^\s=%|]+)")
 
 
@@ -227,18 +260,12 @@ def evaluate(case) -> Verdict:
         bound = set()
         entered = None
         for node in stack[:-1]:
-            ps = oc.outcome_of(node.partial_scope)
-            part = ps[1] if ps[0] == "ok" else None
-            if part is not None:
-                names = {str(i) for i in part.in_scope}
-                if part.scope == PartialScope.ISOLATED:
-                    bound = set(names)  # nothing from outside is visible in a rendered partial
-                else:
-                    bound |= names
-                entered = (part.name, tuple(sorted(bound)))
-            bs = oc.outcome_of(node.block_scope)
-            if bs[0] == "ok":
-                bound |= {str(i) for i in bs[1]}
+            names, isolated, pname = bindings_of(node)
+            if pname is not None:
+                bound = set(names) if isolated else bound | names  # nothing from outside is visible in a rendered partial
+                entered = (pname, tuple(sorted(bound)))
+            else:
+                bound |= names
         if entered and entered[0]:
             contexts_per_partial.setdefault(entered[0], set()).add(entered[1])
         if origin != "globals" or root in bound or root in assigned:
@@ -259,7 +286,7 @@ def evaluate(case) -> Verdict:
         if name not in an.tags:
             v.fail(f"tag-missing:{name}", f"tag {name!r} was rendered in {tname} at {idx} but analysis.tags has {sorted(an.tags)}\n   sources={sources!r:.400}")
     multi = any(len(c) > 1 for c in contexts_per_partial.values())
-    v.nontrivial = obligations >= 1 and (in_partial >= 1 or multi)
+    v.nontrivial = (obligations >= 1 and (in_partial >= 1 or multi)) or (len(sources) == 1 and bool(tr.filters) and len(tr.reads) >= 1)
     v.labels.append("reads:" + ("0" if not tr.reads else "1-5" if len(tr.reads) <= 5 else "6+"))
     v.labels.append("obligations:" + ("0" if not obligations else "1+"))
     if multi:
@@ -358,6 +385,19 @@ def generated(draw):
     return {"main": main, "partials": partials, "async": r.random() < 0.25}
 
 
+@st.composite
+def small(draw):
+    """One or two nodes, so that each filter / tag / path occurs once and a name-level omission shows."""
+    r = core.rng(draw)
+    prof = profile([])
+    prof.depth, prof.width = 1, 2
+    g = gg.Gen(r, prof)
+    main = [g.node(1) for _ in range(r.choice([1, 1, 2]))]
+    if r.random() < 0.4:
+        main = [{"k": "out", "e": g.filtered(), "ws": None}]
+    return {"main": main, "partials": {}, "async": r.random() < 0.25}
+
+
 FIXED = [
     {"sources": {"main": "{% for x in xs %}{% include 'p' %}{% endfor %}{% include 'p' %}", "p": "{{ x }}"}},
     {"sources": {"main": "{% include 'p' %}{% for x in xs %}{% include 'p' %}{% endfor %}", "p": "{{ x }}"}},
@@ -374,6 +414,7 @@ def campaign(ctx: core.Ctx, tier: str, shard: int, nshards: int) -> None:
             ctx.run(case)
     core.drive(composed(), ctx.run, n=(2400 if quick else 60000) // nshards, seed=core.sub_seed(ctx.seed, shard))
     core.drive(generated(), ctx.run, n=(1600 if quick else 40000) // nshards, seed=core.sub_seed(ctx.seed, shard, 1))
+    core.drive(small(), ctx.run, n=(4000 if quick else 80000) // nshards, seed=core.sub_seed(ctx.seed, shard, 2))
 
 
 def finish_kwargs(ctx: core.Ctx, tier: str) -> dict:
@@ -381,15 +422,18 @@ def finish_kwargs(ctx: core.Ctx, tier: str) -> dict:
         "rule": (
             "Templates whose main body calls the same generated partials 2-4 times (include / render, plain, with keyword "
             "arguments, with/for ... as name) from under different scopes (for, tablerow, with, capture, macro, for-else, "
-            "case, after an assign), and fully generated templates with two generated partials; rendered (sync, 25% "
+            "case, after an assign), fully generated templates with two generated partials, and one- or two-node templates "
+            "(so that each filter, tag and path occurs once); rendered (sync, 25% "
             "async) in lax mode with every pool name present in the render arguments. The render is traced from the "
             "harness: each Path evaluated (with its static segments, the node stack and the namespace its root "
             "resolves from), each filter looked up, each tag node rendered. Every traced path must be in "
             "analysis.variables, every filter in analysis.filters, every tag in analysis.tags; a root that resolved "
-            "from the top-level render arguments, that no enclosing active block binds (Node.block_scope / "
-            "partial_scope of the nodes on the stack, reset at render boundaries) and that no template assigns "
+            "from the top-level render arguments, that no enclosing active block binds (for / tablerow / with / include / "
+            "render bindings read off the nodes on the stack, reset at render boundaries; block_scope() for other node "
+            "types) and that no template assigns "
             "anywhere must be in analysis.globals. Non-trivial = at least one such obligation was checked inside a "
-            "partial, or a partial was entered from several distinct binding contexts."
+            "partial, or a partial was entered from several distinct binding contexts; for single-template cases, at "
+            "least one filter was applied and one path read."
         ),
         "assumptions": [
             "dynamic partial names and the translation tags/filters (which read variables named inside message strings) are outside the generated domain",
